@@ -180,3 +180,42 @@ pub fn scc_reference_bfs(n: usize, edges: &[(usize, usize)]) -> Vec<usize> {
     }
     class
 }
+
+/// number of simple (loop-free, distinct edge sequence) paths from `o` to `d`, or None when there are more than `cap`
+/// or the bounded search gives up after `max_steps` edge visits
+pub fn count_simple_paths(net: &RefNet, o: usize, d: usize, cap: usize, max_steps: usize) -> Option<usize> {
+    if o >= net.nv() || d >= net.nv() {
+        return Some(0);
+    }
+    let adj: Vec<Vec<usize>> = (0..net.nv()).map(|v| net.out_edges(v)).collect();
+    let mut visited = vec![false; net.nv()];
+    let mut count = 0usize;
+    let mut steps = 0usize;
+    // iterative DFS: (vertex, next out-edge position)
+    let mut stack: Vec<(usize, usize)> = vec![(o, 0)];
+    visited[o] = true;
+    while let Some((v, pos)) = stack.pop() {
+        if pos >= adj[v].len() {
+            visited[v] = false;
+            continue;
+        }
+        stack.push((v, pos + 1));
+        steps += 1;
+        if steps > max_steps {
+            return None;
+        }
+        let w = net.edges[adj[v][pos]].dst;
+        if w == d {
+            count += 1;
+            if count > cap {
+                return None;
+            }
+            continue;
+        }
+        if !visited[w] {
+            visited[w] = true;
+            stack.push((w, 0));
+        }
+    }
+    Some(count)
+}
